@@ -65,6 +65,22 @@ def _nonempty_test(t):
     return None
 
 
+class _FStrConcat(ast.NodeTransformer):
+    """f'{A}text{B}' -> A + 'text' + B  (plain replacement fields only; used where A, B are strings being normalised)."""
+
+    def visit_JoinedStr(self, node):
+        cur = None
+        for part in node.values:
+            if isinstance(part, ast.FormattedValue) and part.conversion == -1 and part.format_spec is None:
+                piece = self.visit(part.value)
+            elif isinstance(part, ast.Constant) and isinstance(part.value, str):
+                piece = part
+            else:
+                return node
+            cur = piece if cur is None else ast.copy_location(ast.BinOp(left=cur, op=ast.Add(), right=piece), node)
+        return node if cur is None or isinstance(cur, ast.Constant) else cur
+
+
 def _tail_ifexp(stmts):
     """`...; if c: return A` followed by (or with an else of) statements that end in `return B`  ->  `...; return A if c
     else B`, from the end backwards (only where both sides are a bare return)."""
@@ -171,6 +187,12 @@ class Tr:
             if d is None:
                 self.err(e, 'unrecognised attribute expression')
             return d, []
+        # f'{X}/' is X + '/' for a string X
+        if any(isinstance(n, ast.JoinedStr) for n in ast.walk(e)):
+            import copy
+            e = _FStrConcat().visit(copy.deepcopy(e))
+            if any(isinstance(n, ast.JoinedStr) for n in ast.walk(e)):
+                self.err(e, 'unrecognised f-string')
         # '' if X == '.' else X
         if isinstance(e, ast.IfExp) and isinstance(e.test, ast.Compare) and len(e.test.ops) == 1 \
                 and isinstance(e.test.ops[0], (ast.Eq, ast.NotEq)) and _is_const(e.test.comparators[0], '.'):
@@ -445,7 +467,8 @@ def normalise(tr, cls, fn: ast.FunctionDef) -> ast.FunctionDef:
 #        one name per assignment (`v = A; v = f(v)` -> `v = A; v_1 = f(v)`), so that rule (2) can inline it;
 #   (12) `for k in self.<backend dict>: ... self.<backend dict>[k] ...`  ->  `for k, v in self.<backend dict>.items(): ... v ...`;
 #   (13) `for ...: body else: E` without a break in the body  ->  the loop followed by E;
-#   (14) `sum(1 for T in I if C)`  ->  `len([T for T in I if C])`.
+#   (14) `sum(1 for T in I if C)`  ->  `len([T for T in I if C])`;
+#   (15) `except E: pass` of a try that ends a loop body  ->  `except E: continue`.
 # Matching-time equivalences: `if not c: A else: B` = `if c: B else: A` and straight-line locals folded into the returned
 # expression (_paths), `if c: return A` + `return B` in a string helper = `return A if c else B` (_tail_ifexp), every spelling
 # of "X is not empty" (_nonempty_test), key uses / FileInfo sources inside helpers of the same class that are handed the name.
@@ -607,6 +630,11 @@ def _canon_block(fn, blk: list, in_loop: bool) -> list:
             rest = _canon_block(fn, blk[i + 1:], True)
             out.append(ast.copy_location(ast.If(test=_negate(st.test), body=rest, orelse=[]), st))
             return out
+        # (15) `except E: pass` of a try that is the last statement of a loop body  ->  `except E: continue`
+        if in_loop and isinstance(st, ast.Try) and i == len(blk) - 1 and not st.finalbody:
+            for h in st.handlers:
+                if len(h.body) == 1 and isinstance(h.body[0], ast.Pass):
+                    h.body = [ast.copy_location(ast.Continue(), h.body[0])]
         # (13) for ...: body else: E   (no break in the body: the else always runs)   ->   for ...: body; E
         if isinstance(st, (ast.For, ast.While)) and st.orelse and not _has_break(st.body):
             moved = list(st.orelse)
